@@ -375,9 +375,7 @@ func c01Run(rc *RunCtx, params any) {
 	if p.Resume {
 		s.Probe("judged-second-connection")
 	}
-	n.Rules = NetRules{BaseLatencyNs: n.Rules.BaseLatencyNs, JitterNs: n.Rules.JitterNs} // reliable from here on
-	n.Rules.BaseLatencyNs = int64(5 * time.Millisecond)
-	n.Rules.JitterNs = int64(time.Millisecond)
+	n.MakeReliable()
 	s.Run(func() bool { return false }, 3*time.Second) // let retransmissions and tickets drain
 	if CheckAgreement(rc, pair, n, p.C, p.Srv, p.Resume) {
 		// wire: records towards X carry X's CID
